@@ -8,6 +8,7 @@ X_PROGS = {
     "ret0": "proc main() is skip\n",
     "hi": "val put = 1;\nproc main() is { put('h', 0); put('i', 0); put('\\n', 0); 0(3) }\n",
     "echo": "val put = 1; val get = 2;\nvar c;\nproc main() is { c := get(0); while c ~= 255 do { put(c, 0); c := get(0) }; 0(0) }\n",
+    "classify": "val put = 1; val get = 2;\nvar c;\nproc main() is { c := get(0); while c ~= 255 do { if c < 128 then put('L', 0) else put('H', 0); c := get(0) }; 0(0) }\n",
     "sum": "var i; var s;\nproc main() is { i := 0; s := 0; while i < 10 do { s := s + i; i := i + 1 }; 0(s) }\n",
     "fact": "func fac(val n) is if n = 0 then return 1 else return mul(n, fac(n - 1))\n"
             "func mul(val a, val b) is var r; { r := 0; while b > 0 do { r := r + a; b := b - 1 }; return r }\n"
@@ -17,6 +18,11 @@ X_PROGS = {
 
 ASM_PROGS = {
     "asm_exit9": "BR start\nDATA 16383\nstart\nLDAC 9\nLDBM 1\nSTAI 2\nLDAC 0\nOPR SVC\n",
+    # programs that use a register before loading it: after reset areg = breg = oreg = 0
+    "asm_uses_ab": "BR start\nDATA 16383\nstart\nOPR ADD\nLDBM 1\nSTAI 2\nLDAC 0\nOPR SVC\n",
+    "asm_uses_b": "BR start\nDATA 16383\nstart\nLDAC 5\nOPR SUB\nLDBM 1\nSTAI 2\nLDAC 0\nOPR SVC\n",
+    "asm_brn_a": "BR start\nDATA 16383\nstart\nBRN neg\nLDAC 1\nBR out\nneg\nLDAC 2\nout\nLDBM 1\nSTAI 2\nLDAC 0\nOPR SVC\n",
+    "asm_stai_b": "BR start\nDATA 16383\nstart\nLDAC 77\nSTAI 100\nLDAM 100\nLDBM 1\nSTAI 2\nLDAC 0\nOPR SVC\n",
     "asm_svc_first": "OPR SVC\nBR start\nDATA 16383\n",   # first instruction is SVC (D25 shape); never well-formed, kept out of C06
 }
 
@@ -44,4 +50,5 @@ def build_binaries(tools, wd):
     return out
 
 
-INPUTS = {"echo": [b"", b"a", b"hello\n", bytes([0x80, 0xFE, 0x00, 0x41])]}
+_IN = [b"", b"a", b"hello\n", bytes([0x80, 0xFE, 0x00, 0x41]), bytes([0x7F, 0x80, 0xC3, 0xA9])]
+INPUTS = {"echo": _IN, "classify": _IN}
